@@ -2529,6 +2529,12 @@ class Engine:
         for g, ty in c.get('ghost_params', {}).items():
             same = [n for n, t in top_c.get('ghost_params', {}).items() if t == ty]
             env[g] = top_env[same[0]] if same else self.fresh_of_type(g, ty)
+        for r in c.get('supports', []):
+            # limits of the (assumed) contract's MODEL, not preconditions of the callee: a call outside them is not a bug of
+            # the caller, the proof simply cannot use this contract there (the function leaves the supported subset)
+            g = self.spec_eval(r, env)
+            if g is False or (g is not True and self.feasible(z3.Not(toz(g)))):
+                raise Unsupported('call of {} outside the modelled use of its contract [{}] (line {})'.format(label, r, node.lineno))
         for r in c.get('requires', []):
             self.oblige('pre', 'call {} requires [{}]'.format(label, r), self.spec_eval(r, env), node.lineno)
         # termination of recursion
